@@ -454,19 +454,26 @@ func (c *SMTCtx) Query(prefixLen int, goal Term, wantModel bool) string {
 		b.WriteString(c.decls[sym])
 		b.WriteByte('\n')
 	}
-	// string order axioms (lightweight): str_lt via rank is strict total on distinct strings
-	b.WriteString("(assert (forall ((a Str) (b Str)) (! (= (str_lt a b) (< (str_rank a) (str_rank b))) :pattern ((str_lt a b)))))\n")
-	b.WriteString("(assert (forall ((a Str) (b Str)) (! (=> (= (str_rank a) (str_rank b)) (= a b)) :pattern ((str_rank a) (str_rank b)))))\n")
-	b.WriteString("(assert (forall ((a Str)) (! (>= (str_len a) 0) :pattern ((str_len a)))))\n")
-	b.WriteString("(assert (= (objof 0) 0))\n")
+	var body strings.Builder
 	for i := 0; i < prefixLen && i < len(c.asserts); i++ {
-		b.WriteString("(assert ")
-		b.WriteString(c.asserts[i])
-		b.WriteString(")\n")
+		body.WriteString("(assert ")
+		body.WriteString(c.asserts[i])
+		body.WriteString(")\n")
 	}
-	b.WriteString("(assert (not ")
-	b.WriteString(goal.S)
-	b.WriteString("))\n(check-sat)\n")
+	body.WriteString("(assert (not ")
+	body.WriteString(goal.S)
+	body.WriteString("))\n(check-sat)\n")
+	bs := body.String()
+	if strings.Contains(bs, "str_lt") {
+		// string order: str_lt is the strict total order induced by an injective rank
+		b.WriteString("(assert (forall ((a Str) (b Str)) (! (= (str_lt a b) (< (str_rank a) (str_rank b))) :pattern ((str_lt a b)))))\n")
+		b.WriteString("(assert (forall ((a Str) (b Str)) (! (=> (= (str_rank a) (str_rank b)) (= a b)) :pattern ((str_rank a) (str_rank b)))))\n")
+	}
+	if strings.Contains(bs, "str_len") {
+		b.WriteString("(assert (forall ((a Str)) (! (>= (str_len a) 0) :pattern ((str_len a)))))\n")
+	}
+	b.WriteString("(assert (= (objof 0) 0))\n")
+	b.WriteString(bs)
 	if wantModel {
 		b.WriteString("(get-model)\n")
 	}
